@@ -267,29 +267,29 @@ func finish(c *Ctx, spec *PropSpec, known []KnownFinding, verifDir string, start
 		distinct[o.Key] = true
 	}
 	cov := map[string]any{
-		"explanation": spec.Explanation + "  NOT DECIDED: " + spec.NotDecided,
-		"rule": "obligations are enumerated from the type-checked syntax / SSA / call graph of /repo's current tree; one obligation per (rule, function, construct); an obligation is non-trivial when it names a concrete construct of the repository (all do); distinct = distinct keys",
-		"evaluations":            len(c.Obligs),
-		"distinct_nontrivial":    len(distinct),
-		"obligations":            len(c.Obligs),
-		"discharged":             nDis,
-		"findings":               nFind,
-		"known_findings":         nKnown,
-		"undecided":              nUndec,
-		"per_rule":               byRuleJSON(byRule),
-		"census":                 c.Census,
-		"functions_analysed":     funcs,
-		"functions_analysed_n":   len(funcs),
-		"packages":               len(c.P.Pkgs),
-		"files":                  c.P.NFiles,
-		"functions_in_module":    c.P.NFuncs,
-		"configuration":          c.P.Cfg.String(),
-		"samples":                samples,
-		"notes":                  c.Notes,
-		"checker_cmd":            fmt.Sprintf("bin/hlcheck-run %s %s", c.Prop, c.Tier),
-		"trusted_base":           []string{"go/packages", "go/types", "go/cfg", "go/ssa", "callgraph/vta+cha", "rule tables in /verif/checker"},
-		"exhaustive":             true,
-		"exhaustive_meaning":     "every construct of the repository that matches a rule's subject pattern is enumerated; the rule is decided for all inputs/schedules at once (structural necessary condition), not the behavioural statement itself",
+		"explanation":          spec.Explanation + "  NOT DECIDED: " + spec.NotDecided,
+		"rule":                 "obligations are enumerated from the type-checked syntax / SSA / call graph of /repo's current tree; one obligation per (rule, function, construct); an obligation is non-trivial when it names a concrete construct of the repository (all do); distinct = distinct keys",
+		"evaluations":          len(c.Obligs),
+		"distinct_nontrivial":  len(distinct),
+		"obligations":          len(c.Obligs),
+		"discharged":           nDis,
+		"findings":             nFind,
+		"known_findings":       nKnown,
+		"undecided":            nUndec,
+		"per_rule":             byRuleJSON(byRule),
+		"census":               c.Census,
+		"functions_analysed":   funcs,
+		"functions_analysed_n": len(funcs),
+		"packages":             len(c.P.Pkgs),
+		"files":                c.P.NFiles,
+		"functions_in_module":  c.P.NFuncs,
+		"configuration":        c.P.Cfg.String(),
+		"samples":              samples,
+		"notes":                c.Notes,
+		"checker_cmd":          fmt.Sprintf("bin/hlcheck-run %s %s", c.Prop, c.Tier),
+		"trusted_base":         []string{"go/packages", "go/types", "go/cfg", "go/ssa", "callgraph/vta+cha", "rule tables in /verif/checker"},
+		"exhaustive":           true,
+		"exhaustive_meaning":   "every construct of the repository that matches a rule's subject pattern is enumerated; the rule is decided for all inputs/schedules at once (structural necessary condition), not the behavioural statement itself",
 	}
 	for k, v := range extra {
 		cov[k] = v
